@@ -140,6 +140,49 @@ def _returns_only_last(body: list[ast.stmt]) -> bool:
     return len(rets) == 1 and isinstance(body[-1], ast.Return)
 
 
+def _single_exit(body: list[ast.stmt], result: str) -> list[ast.stmt] | None:
+    """Rewrite a body with structured early returns (guard clauses, if/elif/else chains ending in return) into one whose only return is
+    its last statement: every `return E` becomes `result = E` and the statements after a returning branch move into the else branch.
+    None when a return sits inside a loop / try / with (not restructured)."""
+    for s in body:
+        for x in ast.walk(s):
+            if isinstance(x, (ast.For, ast.While, ast.Try, ast.With)) and any(isinstance(y, ast.Return) for y in ast.walk(x)):
+                return None
+
+    def always_returns(stmts: list[ast.stmt]) -> bool:
+        if not stmts:
+            return False
+        last = stmts[-1]
+        if isinstance(last, (ast.Return, ast.Raise)):
+            return True
+        if isinstance(last, ast.If):
+            return bool(last.orelse) and always_returns(last.body) and always_returns(last.orelse)
+        return False
+
+    def conv(stmts: list[ast.stmt]) -> list[ast.stmt]:
+        out: list[ast.stmt] = []
+        for i, st in enumerate(stmts):
+            if isinstance(st, ast.Return):
+                val = st.value if st.value is not None else ast.Constant(value=None)
+                out.append(ast.copy_location(ast.Assign(targets=[ast.Name(id=result, ctx=ast.Store())], value=val), st))
+                return out
+            if isinstance(st, ast.If) and any(isinstance(y, ast.Return) for y in ast.walk(st)):
+                rest = stmts[i + 1:]
+                body_ = conv(st.body + ([] if always_returns(st.body) else rest))
+                else_ = conv((st.orelse or []) + ([] if (st.orelse and always_returns(st.orelse)) else rest))
+                new = ast.copy_location(ast.If(test=st.test, body=body_ or [ast.Pass()], orelse=else_), st)
+                out.append(new)
+                return out
+            out.append(st)
+        return out
+
+    new = conv(copy.deepcopy(body))
+    new.append(ast.Return(value=ast.Name(id=result, ctx=ast.Load())))
+    for n_ in new:
+        ast.fix_missing_locations(n_)
+    return new
+
+
 class _Inliner(ast.NodeTransformer):
     def __init__(self, p: Program, fn: FunctionInfo, depth: int):
         self.p = p
@@ -170,13 +213,24 @@ class _Inliner(ast.NodeTransformer):
         if target is None:
             return None
         body = _strip_doc(target.node.body)
+        restructured = None
         if not _returns_only_last(body):
-            return None
+            restructured = _single_exit(body, f"__result_{target.name}")
+            if restructured is None:
+                return None
         bound = _bind(target, call)
         if bound is None:
             return None
         self.count += 1
-        prologue, nb = _prepare(target, bound, f"inl{self.count}")
+        if restructured is not None:
+            import dataclasses
+
+            node2 = copy.copy(target.node)
+            node2.body = restructured
+            shadow = dataclasses.replace(target, node=node2)
+            prologue, nb = _prepare(shadow, bound, f"inl{self.count}")
+        else:
+            prologue, nb = _prepare(target, bound, f"inl{self.count}")
         self.inlined.append(target.qualname)
         out = list(prologue)
         last = nb[-1] if nb else None
@@ -216,8 +270,53 @@ class _Inliner(ast.NodeTransformer):
             if rep is not None:
                 out += [self.visit(x) for x in rep]
                 continue
+            hoisted = self._hoist(s)
+            if hoisted is not None:
+                out += self._block(hoisted)
+                continue
             out.append(self.visit(s))
         return out
+
+    def _hoist(self, s: ast.stmt) -> list[ast.stmt] | None:
+        """`x = f(a) + self._helper(b)`: a multi-statement helper called inside the expression of a simple statement is bound to a
+        temporary first (`__h = self._helper(b); x = f(a) + __h`), after which statement inlining applies. Only calls that are
+        evaluated unconditionally (not inside `and`/`or`, a conditional expression, a lambda or a comprehension) are hoisted."""
+        if not isinstance(s, (ast.Assign, ast.AnnAssign, ast.AugAssign, ast.Return, ast.Expr)) or getattr(s, "value", None) is None:
+            return None
+        found: list[ast.Call] = []
+
+        def rec(x: ast.AST, top: bool) -> None:
+            if isinstance(x, (ast.BoolOp, ast.IfExp, ast.Lambda, ast.ListComp, ast.SetComp, ast.DictComp, ast.GeneratorExp)):
+                return
+            if isinstance(x, ast.Call) and not top:
+                t = _helper_for(self.p, self.fn, x)
+                if t is not None:
+                    body = _strip_doc(t.node.body)
+                    if not (len(body) == 1 and isinstance(body[0], ast.Return)) and _returns_only_last(body) and _bind(t, x) is not None:
+                        found.append(x)
+                        return
+            for c in ast.iter_child_nodes(x):
+                rec(c, False)
+
+        rec(s.value, True)  # type: ignore[arg-type]
+        if not found:
+            return None
+        call = found[0]
+        self.count += 1
+        name = f"__hoisted{self.count}"
+
+        class _Sub(ast.NodeTransformer):
+            def visit_Call(self_inner, node: ast.Call) -> Any:  # noqa: N805
+                if node is call:
+                    return ast.copy_location(ast.Name(id=name, ctx=ast.Load()), node)
+                return self_inner.generic_visit(node)
+
+        new_s = copy.copy(s)
+        new_s.value = _Sub().visit(copy.deepcopy(s.value) if False else s.value)  # type: ignore[attr-defined]
+        pre = ast.copy_location(ast.Assign(targets=[ast.Name(id=name, ctx=ast.Store())], value=call), s)
+        ast.fix_missing_locations(pre)
+        ast.fix_missing_locations(new_s)
+        return [pre, new_s]
 
     def generic_visit(self, node: ast.AST) -> ast.AST:
         for fld in ("body", "orelse", "finalbody"):
@@ -301,5 +400,193 @@ def unrolled(node: ast.FunctionDef) -> ast.FunctionDef:
     u = _Unroller()
     new = u.visit(node)
     if u.count:
+        ast.fix_missing_locations(new)
+    return new
+
+
+# ------------------------------------------------------------------------------------------------ index loops
+def _same_expr(a: ast.AST, b: ast.AST) -> bool:
+    return ast.dump(a) == ast.dump(b)
+
+
+def _len_of(e: ast.AST) -> ast.expr | None:
+    if isinstance(e, ast.Call) and isinstance(e.func, ast.Name) and e.func.id == "len" and len(e.args) == 1 and not e.keywords:
+        return e.args[0]
+    return None
+
+
+def _is_const(e: ast.AST, v: int) -> bool:
+    if isinstance(e, ast.Constant) and e.value == v and not isinstance(e.value, bool):
+        return True
+    return v < 0 and isinstance(e, ast.UnaryOp) and isinstance(e.op, ast.USub) and isinstance(e.operand, ast.Constant) and e.operand.value == -v
+
+
+class _SubscriptSubst(ast.NodeTransformer):
+    def __init__(self, seq: ast.expr, index: str, elem: str):
+        self.seq, self.index, self.elem = seq, index, elem
+        self.other_index_uses = 0
+
+    def visit_Subscript(self, node: ast.Subscript) -> Any:
+        if isinstance(node.ctx, ast.Load) and isinstance(node.slice, ast.Name) and node.slice.id == self.index and _same_expr(node.value, self.seq):
+            return ast.copy_location(ast.Name(id=self.elem, ctx=ast.Load()), node)
+        return self.generic_visit(node)
+
+    def visit_Name(self, node: ast.Name) -> Any:
+        if node.id == self.index:
+            self.other_index_uses += 1
+        return node
+
+
+class _IndexLoops(ast.NodeTransformer):
+    """`for i in range(len(X)): ... X[i] ...`  ->  `for i, e in enumerate(X): ... e ...`   and
+    `for i in range(len(X) - 1, -1, -1): ... X[i] ...` (i used only to subscript X)  ->  `for e in reversed(X): ... e ...`,
+    when neither X nor i is assigned in the body: every rule then sees an index loop as the for-each loop it is."""
+
+    def __init__(self) -> None:
+        self.count = 0
+
+    def visit_For(self, node: ast.For) -> Any:
+        self.generic_visit(node)
+        it = node.iter
+        if not (isinstance(node.target, ast.Name) and isinstance(it, ast.Call) and isinstance(it.func, ast.Name) and it.func.id == "range" and not it.keywords):
+            return node
+        idx = node.target.id
+        seq: ast.expr | None = None
+        backward = False
+        a = it.args
+        if len(a) == 1:
+            seq = _len_of(a[0])
+        elif len(a) == 2 and _is_const(a[0], 0):
+            seq = _len_of(a[1])
+        elif len(a) == 3 and _is_const(a[1], -1) and _is_const(a[2], -1) and isinstance(a[0], ast.BinOp) and isinstance(a[0].op, ast.Sub) and _is_const(a[0].right, 1):
+            seq = _len_of(a[0].left)
+            backward = True
+        if seq is None or not isinstance(seq, (ast.Name, ast.Attribute)):
+            return node
+        base_names = {x.id for x in ast.walk(seq) if isinstance(x, ast.Name)}
+        for st in node.body + node.orelse:
+            for y in ast.walk(st):
+                if isinstance(y, ast.Name) and isinstance(y.ctx, (ast.Store, ast.Del)) and (y.id == idx or y.id in base_names):
+                    return node
+                if isinstance(y, (ast.FunctionDef, ast.Lambda)):
+                    return node
+        if not any(isinstance(y, ast.Subscript) and isinstance(y.slice, ast.Name) and y.slice.id == idx and _same_expr(y.value, seq)
+                   for st in node.body for y in ast.walk(st)):
+            return node
+        elem = f"__elem_{idx}"
+        sub = _SubscriptSubst(seq, idx, elem)
+        body = [sub.visit(copy.deepcopy(st)) for st in node.body]
+        if backward:
+            if sub.other_index_uses:
+                return node
+            new = ast.For(target=ast.Name(id=elem, ctx=ast.Store()), iter=ast.Call(func=ast.Name(id="reversed", ctx=ast.Load()), args=[copy.deepcopy(seq)], keywords=[]),
+                          body=body, orelse=node.orelse, type_comment=None)
+        else:
+            new = ast.For(target=ast.Tuple(elts=[ast.Name(id=idx, ctx=ast.Store()), ast.Name(id=elem, ctx=ast.Store())], ctx=ast.Store()),
+                          iter=ast.Call(func=ast.Name(id="enumerate", ctx=ast.Load()), args=[copy.deepcopy(seq)], keywords=[]),
+                          body=body, orelse=node.orelse, type_comment=None)
+        self.count += 1
+        return ast.copy_location(new, node)
+
+
+def index_loops_normalised(node: ast.FunctionDef) -> ast.FunctionDef:
+    t = _IndexLoops()
+    new = t.visit(node)
+    if t.count:
+        ast.fix_missing_locations(new)
+    return new
+
+
+# ------------------------------------------------------------------------------------------------ loop-built collections
+def _empty_collection(e: ast.AST) -> str | None:
+    if isinstance(e, ast.List) and not e.elts:
+        return "list"
+    if isinstance(e, ast.Dict) and not e.keys:
+        return "dict"
+    if isinstance(e, ast.Call) and isinstance(e.func, ast.Name) and e.func.id in ("list", "set", "dict") and not e.args and not e.keywords:
+        return e.func.id
+    return None
+
+
+def _mentions(x: ast.AST, name: str) -> bool:
+    return any(isinstance(y, ast.Name) and y.id == name for y in ast.walk(x))
+
+
+class _LoopsToComprehensions(ast.NodeTransformer):
+    """`X = []` ... `for T in IT: X.append(E)`  ->  `X = [E for T in IT]` (likewise `set()`/`.add`, `{}`/`X[K] = V`, and one
+    enclosing `if C:` becomes the comprehension's condition), when nothing between the two statements mentions X and the loop
+    has no other statement, no else, no break/continue: a collection filled by a loop is then the comprehension it is."""
+
+    def __init__(self) -> None:
+        self.count = 0
+
+    def _try(self, init: ast.stmt, loop: ast.stmt, between: list[ast.stmt]) -> ast.stmt | None:
+        if not (isinstance(init, (ast.Assign, ast.AnnAssign)) and isinstance(loop, ast.For) and not loop.orelse and len(loop.body) == 1):
+            return None
+        tg = init.targets[0] if isinstance(init, ast.Assign) and len(init.targets) == 1 else (init.target if isinstance(init, ast.AnnAssign) else None)
+        if not isinstance(tg, ast.Name) or init.value is None:
+            return None
+        kind = _empty_collection(init.value)
+        if kind is None:
+            return None
+        name = tg.id
+        if any(_mentions(b, name) for b in between) or _mentions(loop.iter, name):
+            return None
+        st = loop.body[0]
+        conds: list[ast.expr] = []
+        while isinstance(st, ast.If) and not st.orelse and len(st.body) == 1:
+            conds.append(st.test)
+            st = st.body[0]
+        if any(_mentions(c, name) for c in conds):
+            return None
+        gen = ast.comprehension(target=loop.target, iter=loop.iter, ifs=conds, is_async=0)
+        comp: ast.expr | None = None
+        if isinstance(st, ast.Expr) and isinstance(st.value, ast.Call) and isinstance(st.value.func, ast.Attribute) and isinstance(st.value.func.value, ast.Name) \
+                and st.value.func.value.id == name and len(st.value.args) == 1 and not st.value.keywords and not _mentions(st.value.args[0], name):
+            if kind == "list" and st.value.func.attr == "append":
+                comp = ast.ListComp(elt=st.value.args[0], generators=[gen])
+            elif kind == "set" and st.value.func.attr == "add":
+                comp = ast.SetComp(elt=st.value.args[0], generators=[gen])
+        elif isinstance(st, ast.Assign) and len(st.targets) == 1 and isinstance(st.targets[0], ast.Subscript) and isinstance(st.targets[0].value, ast.Name) \
+                and st.targets[0].value.id == name and kind == "dict" and not _mentions(st.value, name) and not _mentions(st.targets[0].slice, name):
+            comp = ast.DictComp(key=st.targets[0].slice, value=st.value, generators=[gen])
+        if comp is None:
+            return None
+        new = copy.copy(init)
+        new.value = ast.copy_location(comp, loop)  # type: ignore[attr-defined]
+        self.count += 1
+        return ast.copy_location(new, loop)
+
+    def _block(self, stmts: list[ast.stmt]) -> list[ast.stmt]:
+        out = list(stmts)
+        changed = True
+        while changed:
+            changed = False
+            for j, s in enumerate(out):
+                if not isinstance(s, ast.For):
+                    continue
+                for i in range(j - 1, -1, -1):
+                    rep = self._try(out[i], s, out[i + 1:j])
+                    if rep is not None:
+                        out = out[:i] + out[i + 1:j] + [rep] + out[j + 1:]
+                        changed = True
+                        break
+                if changed:
+                    break
+        return out
+
+    def generic_visit(self, node: ast.AST) -> ast.AST:
+        super().generic_visit(node)
+        for fld in ("body", "orelse", "finalbody"):
+            v = getattr(node, fld, None)
+            if isinstance(v, list) and v and isinstance(v[0], ast.stmt):
+                setattr(node, fld, self._block(v))
+        return node
+
+
+def loops_as_comprehensions(node: ast.FunctionDef) -> ast.FunctionDef:
+    t = _LoopsToComprehensions()
+    new = t.visit(node)
+    if t.count:
         ast.fix_missing_locations(new)
     return new
